@@ -62,6 +62,7 @@ def spec_cal_ge(l, r):
 
 
 c = REG.new("bumpver.v2version._is_cal_gt")
+c.prune = False
 c.param("left", k_vinfo(version))
 c.param("right", k_calinfo(version))
 c.returns(KBool())
@@ -512,21 +513,22 @@ c.returns(KOpt(KStr()))
 c.record_calls = True
 c.ensures("C01.incr.none_or_nonempty_and_changed", lambda a, res, cx: b_or(v_is_none(res), b_and(v_ne(res, ""), v_ne(res, a.old_version))))
 c.ensures("C14.incr.incoherent_week_pattern_gives_no_version", lambda a, res, cx: b_implies(b_not(spec_valid_week(a.raw_pattern)), v_is_none(res)))
-c.ensures("C05.incr.pinned_calendar_parts_unchanged", _incr_clause("pinned"))
-c.ensures("C05+C14.incr.calendar_never_moves_backwards", _incr_clause("never_backwards"))
-c.ensures("C05.incr.calendar_from_date_unless_version_is_in_future", _incr_clause("from_date"))
+c.ensures("C05.incr.pinned_calendar_parts_unchanged", _incr_clause("pinned"), internal=True)
+c.ensures("C05+C14.incr.calendar_never_moves_backwards", _incr_clause("never_backwards"), internal=True)
+c.ensures("C05.incr.calendar_from_date_unless_version_is_in_future", _incr_clause("from_date"), internal=True)
 for _i, _f in enumerate(ALL_FIELDS):
     if _f in CAL_FIELDS or _f == "bid":
         continue
-    c.ensures(f"C05.incr.{_f}_follows_readme_rule", _incr_clause("numeric", _i))
-c.ensures("C05+C17.incr.build_strictly_increased", _incr_clause("build"))
-c.ensures("C05.incr.result_is_rendering_of_that_record", _incr_clause("rendered"))
+    c.ensures(f"C05.incr.{_f}_follows_readme_rule", _incr_clause("numeric", _i), internal=True)
+c.ensures("C05+C17.incr.build_strictly_increased", _incr_clause("build"), internal=True)
+c.ensures("C05.incr.result_is_rendering_of_that_record", _incr_clause("rendered"), internal=True)
 c.ensures(
     "C05.incr.tag_num_needs_a_tag",
     lambda a, res, cx: b_implies(
         b_and(v_truthy(a.tag_num), v_is_none(a.tag), *[v_eq(field(e[2], "tag"), "final") for e in cx.new if e[0] == "CallResult" and e[1] == "bumpver.v2version.parse_version_info"][-1:]),
         v_is_none(res),
     ),
+    internal=True,
 )
 c.exsures(OverflowError)  # BUILD at its documented maximum (C17)
 c.exsures(ValueError)  # malformed pattern
